@@ -28,7 +28,10 @@ def run_one(prop, tier, repo, seed, out_dir=None):
         except (AnalysisError, AnchorError) as e:
             # violations already decided stay valid; without any, the run is analysis-broken
             ctx.broken = str(e)
-        return finish(ctx, t0, explanation=getattr(mod, "EXPLANATION", ""), extra=getattr(mod, "EXTRA", None),
+        extra = dict(getattr(mod, "EXTRA", None) or {})
+        if tier == "thorough" and out_dir is None and os.path.realpath(repo) == "/repo" and not os.environ.get("SA_NO_VALIDATION"):
+            extra["checker_validation"] = validate(prop)
+        return finish(ctx, t0, explanation=getattr(mod, "EXPLANATION", ""), extra=extra or None,
                       out_dir=out_dir)
     except (AnalysisError, AnchorError) as e:
         print("ANALYSIS-ERROR property=%s %s" % (prop, e))
@@ -40,6 +43,28 @@ def run_one(prop, tier, repo, seed, out_dir=None):
         traceback.print_exc()
         print("ANALYSIS-ERROR property=%s internal error (see traceback)" % prop)
         return 2
+
+
+def validate(prop):
+    """thorough tier: the property's corpus of variants (semantic single edits that must be reported, behaviour-preserving rewrites that must
+    not) is run on scratch copies of /repo and the matrix recorded in the evidence; it never changes the verdict on the tree itself"""
+    import subprocess
+    env = dict(os.environ, SA_NO_VALIDATION="1")
+    r = subprocess.run([sys.executable, "-m", "sa.selftest", prop, "-j", str(os.cpu_count() or 4)], cwd=VERIF, capture_output=True, text=True, env=env)
+    lines = [l for l in r.stdout.splitlines() if l.startswith(("ok ", "FAIL"))]
+    by = {}
+    for l in lines:
+        parts = l.split("expect=")
+        if len(parts) == 2:
+            exp = parts[1].split()[0]
+            by.setdefault(exp, [0, 0])
+            by[exp][0] += 1
+            by[exp][1] += l.startswith("ok ")
+    unexpected = [l[:140] for l in lines if l.startswith("FAIL")]
+    if unexpected:
+        print("NOTE: %d variant(s) of the validation corpus of %s did not meet their expectation (recorded in the evidence; the verdict on the tree is not affected)" % (len(unexpected), prop))
+    return {"variants": len(lines), "by_expectation": {k: {"variants": v[0], "met": v[1]} for k, v in sorted(by.items())}, "unexpected": unexpected,
+            "how": "python -m sa.selftest %s: each variant applied to a scratch copy of /repo, the check run on the copy" % prop}
 
 
 def main(argv=None):
